@@ -110,9 +110,12 @@ PROPS["C20"] = dict(
     rule="cases of 1-4 keystores x up to 400 ids incl. odd ids; ops create/get/has/has-never-created/createIdentity/sign/restart in PRNG order; non-trivial = a created key is read through a non-creator keystore, after a restart, or after >= 128 later creations",
 )
 
-PROPS_EXTRA = {"C06": ["Props.EffectFacts", "Props.CodecFacts"], "C17": ["Props.EffectFacts"], "C04": ["Props.C04Conc"],
-               "C02": ["Props.C13Facts"], "C15": ["Props.C13Facts"], "C19": ["Props.C19Gen"], "C03": ["Props.C19Gen"],
-               "C07": ["Props.CodecFacts"], "C08": ["Props.CodecFacts"], "C12": ["Props.CodecFacts"], "C18": ["Props.CodecFacts"]}
+PROPS_EXTRA = {"C06": ["Props.EffectFacts", "Props.CodecFacts", "Props.SlicesGen"], "C17": ["Props.EffectFacts"],
+               "C04": ["Props.C04Conc", "Props.SlicesGen"],
+               "C02": ["Props.C13Facts", "Props.SlicesGen"], "C15": ["Props.C13Facts"], "C19": ["Props.C19Gen"], "C03": ["Props.C19Gen"],
+               "C07": ["Props.CodecFacts"], "C08": ["Props.CodecFacts", "Props.SlicesGen"], "C12": ["Props.CodecFacts"],
+               "C18": ["Props.CodecFacts", "Props.SlicesGen"], "C09": ["Props.SlicesGen"], "C10": ["Props.SlicesGen"],
+               "C14": ["Props.SlicesGen"]}
 _core_prop("C06", "Merge admits only verified, authorised entries and is all-or-nothing",
     r"(join|joinN|append|tamper)/(join\..*|append\.denied|entries|len|heads|rawheads|values|clock|snapshot\..*|json\.heads)",
     "Lean 4: theorems on the transcription of Join with an abstract per-candidate validity predicate (join_rejects, join_admits for every size bound, heads admitted), denied append, create-then-verify under an abstract codec/crypto; differential replay with access-controller denial and tampered source logs",
